@@ -19,6 +19,8 @@ type frame struct {
 	result Value
 }
 
+var bufferWriters = map[string]bool{"(*bytes.Buffer).Write": true, "(*bytes.Buffer).WriteString": true, "(*bytes.Buffer).WriteByte": true, "(*bytes.Buffer).Grow": true}
+
 func (in *Interp) call(fn *ssa.Function, args []Value) Value {
 	if fn == nil {
 		panic("call of nil function")
@@ -31,7 +33,7 @@ func (in *Interp) call(fn *ssa.Function, args []Value) Value {
 	if strings.HasPrefix(fn.Name(), "v") && fn.Pkg != nil && isHarnessIntrinsic(fn.Name()) {
 		return in.intrinsic(fn, args)
 	}
-	if nf, ok := in.natives[name]; ok {
+	if nf, ok := in.natives[name]; ok && !(in.realBuffer && bufferWriters[name]) {
 		in.stats.Models[name]++
 		return nf(in, fn, args)
 	}
